@@ -6,7 +6,7 @@ id=$1; D=/tmp/seed/$id; WT=$D/wt; OUT=$D/out
 export CARGO_TARGET_DIR=$WT/target CARGO_NET_OFFLINE=true
 cd $WT || exit 2
 git checkout -q -- . ; git clean -fdq -e target
-cmd=$(python3 -c "import json,re;print(re.sub(r'git apply \\S+ *&& *','',json.load(open('$OUT/meta.json'))['demo_cmd']))")
+cmd=$(python3 -c "import json,re;print(re.sub(r'git apply( +[^ &]+)+ *&& *','',json.load(open('$OUT/meta.json'))['demo_cmd']))")
 git apply $OUT/demo.diff || { echo "demo.diff does not apply"; exit 2; }
 ( eval "$cmd" ) > $D/demo_clean.log 2>&1; rc_clean=$?
 git apply $OUT/patch.diff || { echo "patch.diff does not apply"; exit 2; }
